@@ -783,6 +783,11 @@ def gen_interpolate(rng, tier, shard, nshards, boost):
     for _ in range((150 if tier == "quick" else 2000) * boost):
         ivs, labs = rand_annotation(rng)
         tps = sorted(rand_times(rng, ivs, rng.randint(1, 10)))
+        if rng.random() < 0.25:
+            # rows listed out of time order (documented requirement: disjoint intervals, sorted TIME POINTS)
+            k = list(range(len(ivs)))
+            rng.shuffle(k)
+            ivs, labs = [ivs[j] for j in k], [labs[j] for j in k]
         yield {"intervals": [[F(s), F(e)] for s, e in ivs], "labels": labs, "times": [F(t) for t in tps],
                "fill": rng.choice([None, "F"])}
     idx = 0
